@@ -605,6 +605,7 @@ type oC15 struct {
 	rowVia  map[string]string
 	// local queue: rows handed out and not yet deleted, by URL text
 	outstanding map[string]map[string]bool // value -> row ids
+	lqAcked     map[string]bool            // row id -> a DELETE for it succeeded
 }
 
 func (o *oC15) Name() string { return "C15" }
@@ -666,6 +667,10 @@ func (o *oC15) OnEvent(k *Kernel, ev *Event) {
 		if len(ev.raw) > 1 && ev.raw[1] == nil {
 			if us, ok := ev.raw[0].([]sqlc_model.Url); ok {
 				for _, u := range us {
+					if o.lqAcked == nil {
+						o.lqAcked = map[string]bool{}
+					}
+					o.lqAcked[u.ID] = true
 					for v, ids := range o.outstanding {
 						if ids[u.ID] {
 							delete(ids, u.ID)
@@ -773,6 +778,14 @@ func (o *oC15) OnIdle(k *Kernel) {
 		return
 	}
 	// local queue
+	if !persistentFaults(o.r.sc) {
+		// every finished seed is acknowledged to the queue by its id (failing deletes are repeated until they succeed)
+		for id := range o.finIDs {
+			if !o.lqAcked[id] {
+				k.Violate("C15", "delivered", "finish-ack-never-reached-queue", fmt.Sprintf("seed %s was finished but the local queue never deleted its row although the crawl drained", nameOr(k, id)))
+			}
+		}
+	}
 	added := map[string]int{}
 	for _, e := range o.lqAdded {
 		added[tupleKey(e)]++
